@@ -15,6 +15,7 @@ import (
 	"errors"
 	"fmt"
 	"io"
+	"math"
 	"reflect"
 	"strconv"
 	"unsafe"
@@ -167,15 +168,15 @@ func (bc *buildCtx) realImpl(d *D) interface{} {
 	case "NBool":
 		return tNBool(d.N != 0)
 	case "float32":
-		return float32(d.F)
+		return float32(floatOf(d))
 	case "float64":
-		return d.F
+		return floatOf(d)
 	case "NFloat":
-		return tNFloat(d.F)
+		return tNFloat(floatOf(d))
 	case "complex64":
-		return complex(float32(d.F), float32(d.N))
+		return complex(float32(floatOf(d)), float32(d.N))
 	case "complex128":
-		return complex(d.F, float64(d.N))
+		return complex(floatOf(d), float64(d.N))
 	case "string":
 		return string(d.S)
 	case "NStr":
@@ -878,6 +879,11 @@ type tKeyStruct struct {
 	B string
 }
 
+type tKeyStructI struct {
+	Tag interface{}
+	N   int
+}
+
 // keyOf builds a comparable map key of one of several kinds.
 func (bc *buildCtx) keyOf(d *D) interface{} {
 	switch d.K {
@@ -885,10 +891,33 @@ func (bc *buildCtx) keyOf(d *D) interface{} {
 		return nil
 	case "kstruct":
 		return tKeyStruct{int(d.N), string(d.S)}
+	case "kstructI":
+		var tag interface{}
+		if d.S != "" {
+			tag = string(d.S)
+		}
+		return tKeyStructI{tag, int(d.N)}
 	case "karr":
 		return [2]int{int(d.N), int(d.N >> 4)}
 	case "kcomplex":
 		return complex(d.F, float64(d.N))
 	}
 	return bc.real(d)
+}
+
+// floatOf: the float payload of d; S selects the values JSON cannot carry.
+func floatOf(d *D) float64 {
+	switch d.S {
+	case "NaN":
+		return math.NaN()
+	case "+Inf":
+		return math.Inf(1)
+	case "-Inf":
+		return math.Inf(-1)
+	case "-0":
+		return math.Copysign(0, -1)
+	case "subnormal":
+		return 5e-324
+	}
+	return d.F
 }
